@@ -1,8 +1,12 @@
 (* Engine A proofs, C07: which operations can touch the refresh state.
 
    grow7        refreshingScRefs unchanged, the refresh views of the existing slots
-                unchanged, new slots start with deCalls = 0   (every operation
-                except Done and a connection-state report)
+                unchanged, the clock does not go back, new slots start with
+                deCalls = 0, refreshCnt = 0 and lastResp = the clock   (every
+                operation except Done and a connection-state report)
+   clock_ok     the clock is >= 0; lastResp of every channel is a past clock value
+                (0 <= lastResp <= now); refreshCnt >= 0.  Holds in every state of
+                every run (full_step_clock_ok, run_states_clock_ok)
    no_rm        the operation calls RemoveSubConn on nothing
    de_le        bound on the deCalls counters along a run
    resolve_blocked_streams   the stream count of a channel no waiting call of
@@ -14,8 +18,16 @@ Open Scope Z_scope.
 
 Definition de_of (v : N * Z * Z * bool * Z) : Z := let '(_, _, de, _, _) := v in de.
 Definition conn_of (v : N * Z * Z * bool * Z) : N := let '(c, _, _, _, _) := v in c.
+Definition last_of (v : N * Z * Z * bool * Z) : Z := let '(_, l, _, _, _) := v in l.
+Definition rc_of (v : N * Z * Z * bool * Z) : Z := let '(_, _, _, _, rc) := v in rc.
 
 Lemma de_of_rview r : de_of (rview r) = sl_de r.
+Proof. reflexivity. Qed.
+
+Lemma last_of_rview r : last_of (rview r) = sl_last r.
+Proof. reflexivity. Qed.
+
+Lemma rc_of_rview r : rc_of (rview r) = sl_rcnt r.
 Proof. reflexivity. Qed.
 
 Lemma conns_rviews s : map sl_conn (b_slots s) = map conn_of (rviews s).
@@ -24,25 +36,34 @@ Proof. rewrite map_map. reflexivity. Qed.
 (* ================================================================ grow7 *)
 Record grow7 (s s' : bal) : Prop := mkGrow7 {
   g7_refr : b_refr s' = b_refr s;
-  g7_slots : exists l, rviews s' = rviews s ++ l /\ Forall (fun v => de_of v = 0) l
+  g7_now : b_now s <= b_now s';
+  g7_slots : exists l, rviews s' = rviews s ++ l /\
+                       Forall (fun v => de_of v = 0 /\ rc_of v = 0 /\ b_now s <= last_of v <= b_now s') l
 }.
 
-Lemma grow7_same s s' : b_refr s' = b_refr s -> rviews s' = rviews s -> grow7 s s'.
-Proof. intros H1 H2. split; [exact H1|]. exists []. rewrite app_nil_r. split; [exact H2|constructor]. Qed.
+Lemma grow7_later s s' : b_refr s' = b_refr s -> rviews s' = rviews s -> b_now s <= b_now s' -> grow7 s s'.
+Proof.
+  intros H1 H2 H3. split; [exact H1|exact H3|]. exists []. rewrite app_nil_r. split; [exact H2|constructor].
+Qed.
+
+Lemma grow7_same s s' : b_refr s' = b_refr s -> rviews s' = rviews s -> b_now s' = b_now s -> grow7 s s'.
+Proof. intros H1 H2 H3. apply grow7_later; auto. lia. Qed.
 
 Lemma grow7_refl s : grow7 s s.
 Proof. apply grow7_same; reflexivity. Qed.
 
 Lemma grow7_trans s1 s2 s3 : grow7 s1 s2 -> grow7 s2 s3 -> grow7 s1 s3.
 Proof.
-  intros [A1 [l1 [B1 C1]]] [A2 [l2 [B2 C2]]]. split; [congruence|].
-  exists (l1 ++ l2). rewrite B2, B1, app_assoc. split; [reflexivity|]. apply Forall_app. auto.
+  intros [A1 N1 [l1 [B1 C1]]] [A2 N2 [l2 [B2 C2]]]. split; [congruence|lia|].
+  exists (l1 ++ l2). rewrite B2, B1, app_assoc. split; [reflexivity|]. apply Forall_app. split.
+  - eapply Forall_impl; [|exact C1]. cbn beta. intros v Hv. repeat split; try tauto; lia.
+  - eapply Forall_impl; [|exact C2]. cbn beta. intros v Hv. repeat split; try tauto; lia.
 Qed.
 
 Lemma grow7_add_state s : grow7 s (add_state s).
 Proof.
-  split; [reflexivity|]. unfold add_state; sb. rewrite map_app. eexists. split; [reflexivity|].
-  repeat constructor.
+  split; [reflexivity|unfold add_state; sb; lia|]. unfold add_state; sb. rewrite map_app. eexists. split; [reflexivity|].
+  constructor; [|constructor]. cbn. repeat split; lia.
 Qed.
 
 Lemma addSubConn_grow7 s s' ok o : addSubConn s = (s', ok, o) -> grow7 s s' /\ no_rm o.
@@ -141,7 +162,9 @@ Proof.
   - intros E; inv E. split; [apply grow7_refl|reflexivity].
   - destruct (nth_error (b_published s) pi) eqn:Ep; [|intros E; inv E; split; [apply grow7_refl|reflexivity]].
     destruct (_ && _); [intros E; inv E; split; [apply grow7_refl|reflexivity]|]. eapply Pick_grow7; eauto.
-  - destruct (0 <=? dt); intros E; inv E; (split; [apply grow7_same; reflexivity|reflexivity]).
+  - destruct (Z.leb_spec 0 dt); intros E; inv E; (split; [|reflexivity]).
+    + apply grow7_later; try reflexivity. cbn. lia.
+    + apply grow7_refl.
   - destruct (nth_error (b_picks s) j); intros E; inv E; (split; [apply grow7_same; reflexivity|reflexivity]).
   - intros E; inv E; split; [apply grow7_same; reflexivity|reflexivity].
   - intros E; inv E; split; [apply grow7_same; reflexivity|reflexivity].
@@ -234,7 +257,7 @@ Qed.
 
 Lemma grow7_de_le n s s' : 0 <= n -> grow7 s s' -> de_le n s -> de_le n s'.
 Proof.
-  intros Hn [_ [l [E Hl]]] H. unfold de_le in *. rewrite E. apply Forall_app. split; [exact H|].
+  intros Hn [_ _ [l [E Hl]]] H. unfold de_le in *. rewrite E. apply Forall_app. split; [exact H|].
   eapply Forall_impl; [|exact Hl]. cbn. intros v Hv. lia.
 Qed.
 
@@ -319,6 +342,101 @@ Proof.
     pose proof (full_step_de_le _ _ _ _ _ _ _ _ _ HI Hn Hd E) as Hd'.
     specialize (IH s' (n + 1) HI' ltac:(lia) Hd' ltac:(cbn [length] in Hl; lia)).
     destruct r as [|[o' order'] r']; exact IH.
+Qed.
+
+(* ================================================================ the clock, lastResp and refreshCnt *)
+(* The clock starts at 0 and OpAdvance moves it forward only; lastResp is set to the
+   clock (new channel, response, swap); refreshCnt is 0 or (refreshCnt + 1) mod 2^32. *)
+Definition slot_clock (now : Z) (v : N * Z * Z * bool * Z) : Prop := 0 <= last_of v <= now /\ 0 <= rc_of v.
+
+Definition clock_ok (s : bal) : Prop := 0 <= b_now s /\ Forall (slot_clock (b_now s)) (rviews s).
+
+Lemma clock_ok_init : clock_ok init_bal.
+Proof. split; [cbn; lia|constructor]. Qed.
+
+Lemma clock_ok_slot s i r :
+  clock_ok s -> get_slot s i = Some r -> 0 <= sl_last r <= b_now s /\ 0 <= sl_rcnt r.
+Proof.
+  intros [_ H] Hr. rewrite Forall_forall in H. apply (H (rview r)). apply in_map. eapply nth_error_In, Hr.
+Qed.
+
+Lemma slot_clock_mono n m v : n <= m -> slot_clock n v -> slot_clock m v.
+Proof. unfold slot_clock. lia. Qed.
+
+Lemma clock_ok_views s s' : rviews s' = rviews s -> b_now s' = b_now s -> clock_ok s -> clock_ok s'.
+Proof. unfold clock_ok. intros -> ->. auto. Qed.
+
+Lemma grow7_clock_ok s s' : grow7 s s' -> clock_ok s -> clock_ok s'.
+Proof.
+  intros [_ Hn [l [E Hl]]] [H0 H]. split; [lia|]. rewrite E. apply Forall_app. split.
+  - eapply Forall_impl; [|exact H]. intros v. apply slot_clock_mono, Hn.
+  - eapply Forall_impl; [|exact Hl]. cbn beta. unfold slot_clock. intros v Hv. lia.
+Qed.
+
+Lemma du_result_clock s p oc r :
+  0 <= b_now s -> 0 <= sl_last r <= b_now s -> 0 <= sl_rcnt r ->
+  slot_clock (b_now s) (rview (fst (du_result s p oc r))).
+Proof.
+  intros Hn Hl Hk. unfold slot_clock. rewrite last_of_rview, rc_of_rview. unfold du_result.
+  destruct (negb (b_undet s)); [cbn [fst]; lia|].
+  destruct (negb _); [cbn [fst resp_slot sl_last sl_rcnt]; lia|].
+  destruct (_ <? _); [cbn [fst]; lia|]. cbv zeta.
+  destruct (du_trigger s r); [|cbn [fst sl_last sl_rcnt sl_set_de]; lia].
+  destruct (sl_refreshing r); [cbn [fst sl_last sl_rcnt sl_set_de]; lia|].
+  destruct (cannot_create s); cbn [fst sl_last sl_rcnt sl_set_de sl_set_refreshing]; lia.
+Qed.
+
+Lemma step_clock_ok raw s o order s1 outs rt :
+  Inv s -> clock_ok s -> step raw s o order = (s1, outs, rt) -> clock_ok s1.
+Proof.
+  intros HI Hc E. pose proof (step_grow7 _ _ _ _ _ _ _ HI E) as Hg.
+  destruct o as [addrs a| |sc st|pi m hc rk dl cc|j oc rk|dt|j|f|g|k];
+    try (eapply grow7_clock_ok; [apply Hg|exact Hc]).
+  - (* OpConnState *)
+    cbn [step] in E. destruct (UpdateSubConnState s sc st order) as [s1' o1] eqn:E1. inv E.
+    destruct (UpdateSubConnState_Inv _ _ _ _ _ _ HI E1) as [_ HF]. pose proof (uf_now _ _ HF) as Hnow.
+    destruct (UpdateSubConnState_slots _ _ _ _ _ _ HI E1) as [(H1&_)|(i&ref&_&_&_&H1&_)].
+    + eapply clock_ok_views; [rewrite H1; reflexivity|exact Hnow|exact Hc].
+    + destruct Hc as [H0 H]. unfold clock_ok. rewrite Hnow, H1, rviews_swapped. split; [exact H0|].
+      apply Forall_upd_nth; [exact H|].
+      intros [[[[c l] d] rf] rc] _. unfold slot_clock. cbn [swapped_view last_of rc_of].
+      pose proof (Z.mod_pos_bound (rc + 1) W32 ltac:(unfold W32; lia)). lia.
+  - (* OpDone *)
+    cbn [step] in E. destruct (ret_badop_dec rt) as [->|Hrt].
+    + apply Done_badop in E. destruct E as [-> _]. exact Hc.
+    + pose proof (Done_views _ _ _ _ _ _ _ E) as [_ [Hv _]]. apply envview_inv in Hv.
+      assert (Hnow : b_now s1 = b_now s) by tauto.
+      destruct (Done_spec _ _ _ _ _ _ _ HI E Hrt) as (p & r & Hj & Hst & Hr & H1 & _). cbv zeta in H1.
+      destruct (clock_ok_slot _ _ _ Hc Hr) as [Hl Hk].
+      destruct Hc as [H0 H]. unfold clock_ok. rewrite Hnow, H1. split; [exact H0|].
+      apply Forall_upd_nth; [exact H|]. intros x _.
+      change (b_now s) with (b_now (done_s1 s j p)). apply du_result_clock; assumption.
+Qed.
+
+Lemma full_step_clock_ok raw s o order s' outs rt ub :
+  Inv s -> clock_ok s -> full_step raw s o order = (s', outs, rt, ub) -> clock_ok s'.
+Proof.
+  intros HI Hc. rewrite full_step_eq.
+  destruct (step raw s o order) as [[s1 outs1] r1] eqn:Es.
+  destruct (resolve_blocked s1) as [s2 ub2] eqn:Er. intros E; inv E.
+  destruct (step_Inv _ _ _ _ _ _ _ HI Es) as [HI1 _].
+  destruct (resolve_blocked_spec _ _ _ HI1 Er) as [_ [Hm _]].
+  pose proof (mask_sp_views _ _ Hm) as [_ Hv]. apply envview_inv in Hv.
+  eapply clock_ok_views; [apply (rviews_mask_sp _ _ Hm)|tauto|].
+  exact (step_clock_ok _ _ _ _ _ _ _ HI Hc Es).
+Qed.
+
+(* every state of every run (legal or not) *)
+Lemma run_states_clock_ok raw : forall ops s,
+  Inv s -> clock_ok s -> Forall clock_ok (run_states raw s ops).
+Proof.
+  induction ops as [|[o order] r IH]; intros s HI Hc; cbn [run_states].
+  - constructor; [exact Hc|constructor].
+  - constructor; [exact Hc|].
+    destruct (full_step raw s o order) as [[[s' outs] rt] ub] eqn:E.
+    destruct (full_step_Inv _ _ _ _ _ _ _ _ HI E) as [HI' _].
+    pose proof (full_step_clock_ok _ _ _ _ _ _ _ _ HI Hc E) as Hc'.
+    specialize (IH s' HI' Hc'). destruct r as [|[o' order'] r']; exact IH.
 Qed.
 
 (* ================================================================ the unblocking loop and the stream counts *)
